@@ -6,8 +6,9 @@ use happylock::collection::{BoxedLockCollection, OwnedLockCollection, RefLockCol
 use happylock::poisonable::Poisonable;
 
 use crate::world::*;
+use serde::{Deserialize, Serialize};
 
-#[derive(Clone, Copy, Debug, PartialEq, Eq, Hash, PartialOrd, Ord)]
+#[derive(Clone, Copy, Debug, PartialEq, Eq, Hash, PartialOrd, Ord, Serialize, Deserialize)]
 pub enum Kind {
 	Boxed,
 	Ref,
@@ -24,7 +25,7 @@ impl Kind {
 	}
 }
 
-#[derive(Clone, Debug, PartialEq, Eq, Hash, PartialOrd, Ord)]
+#[derive(Clone, Debug, PartialEq, Eq, Hash, PartialOrd, Ord, Serialize, Deserialize)]
 pub enum Native {
 	Arr3(Kind, [usize; 3]),
 	TupMR(Kind, usize, usize),
@@ -47,7 +48,7 @@ pub enum Native {
 	PoisOwned(usize),
 }
 
-#[derive(Clone, Debug, PartialEq, Eq, Hash, PartialOrd, Ord)]
+#[derive(Clone, Debug, PartialEq, Eq, Hash, PartialOrd, Ord, Serialize, Deserialize)]
 pub enum Spec {
 	R(usize),
 	M(usize),
